@@ -20,8 +20,16 @@ func NewFPECipher(engine hash.Engine, key string, rounds int) *FPECipher {
 	return &FPECipher{Engine: engine, Key: key, Rounds: rounds}
 }
 
+// VerifEHook (replay only): points of E fixed by a solver counterexample take precedence over the fixed bijection.
+var VerifEHook func(string) (string, bool)
+
 // VerifE is the cipher contract (see package comment).
 func VerifE(src string) string {
+	if VerifEHook != nil {
+		if out, ok := VerifEHook(src); ok {
+			return out
+		}
+	}
 	b := []byte(src)
 	for i := range b {
 		b[i] = b[i] ^ 0x5A ^ byte(len(b)*31+i*7)
